@@ -8,6 +8,7 @@ import (
 	"sort"
 	"strings"
 	"sync"
+	"sync/atomic"
 	"time"
 
 	"github.com/cockroachdb/errors"
@@ -158,6 +159,10 @@ func BuildOptions(op OptPlan, fs vfs.FS, el *pebble.EventListener, lg pebble.Log
 		td := float64(op.TombDense) / 100
 		o.TombstoneDenseCompactionThreshold = func() float64 { return td }
 	}
+	if op.FlushDelayMs > 0 {
+		o.FlushDelayDeleteRange = time.Duration(op.FlushDelayMs) * time.Millisecond
+		o.FlushDelayRangeKey = time.Duration(op.FlushDelayMs) * time.Millisecond
+	}
 	if op.ReadSampling != 0 {
 		o.ReadSamplingMultiplier = int64(op.ReadSampling)
 	}
@@ -302,6 +307,8 @@ type Runner struct {
 	L map[string]bool
 
 	stepIdx int
+	// stepA mirrors stepIdx for goroutines other than the foreground.
+	stepA atomic.Int64
 }
 
 type sdState struct {
@@ -1267,6 +1274,7 @@ func (r *Runner) writeTable(ops []Op) (string, error) {
 // unexpected error from a valid operation, which is one too).
 func (r *Runner) Step(i int) error {
 	r.stepIdx = i
+	r.stepA.Store(int64(i))
 	s := r.Plan.Steps[i]
 	err := r.step(s)
 	if err != nil {
